@@ -116,7 +116,7 @@ def parseSource (j : Json) : R Source := do
     | none => .otherError
   pure { path := path, present := ← getBool j "exists", isDir := ← getBool j "is_dir",
          perkinValid := ← getBool j "perkin_valid", csvValid := ← getBool j "csv_valid",
-         sniff := sniff, infoFails := ← getBool j "info_fails", call := call, npz := npz }
+         sniff := sniff, info := ← (fld j "info" >>= fun ij => parseOutcomeWith ij (pure ())), call := call, npz := npz }
 
 /-- the library filter as a table keyed by the CONTENT of the grid it is handed (shape and every
 token): a grid that is not one of the fields the harness filtered gives a grid of `-1` -/
